@@ -29,6 +29,13 @@ var propDefs = map[string]*PropDef{
 		},
 		Assume: []string{"loaders are deterministic functions of (base, name): LoaderAbs is an uninterpreted function", "FromFile's frame (writes only the freeze flag and fresh objects) is an assumed contract"},
 	},
+	"C12": {
+		ID: "C12", Kinds: []string{}, Funcs: "exec", Floor: 80,
+		Unmech: []string{
+			"'gone after the construct, outer bindings intact' follows from: the construct writes only the child's fresh map (proved at every map update), the body runs in the child (proved at the call), and the child map is a copy (proved) - composition over nesting depth on paper",
+		},
+		Assume: []string{"map iteration is modelled with a ghost set of delivered keys (every key delivered exactly once)"},
+	},
 	"C04": {
 		ID: "C04", Kinds: []string{"frame"}, Funcs: "exec", Floor: 100,
 		Unmech: []string{
